@@ -148,6 +148,8 @@ fn real_location2(p: &Path) -> Option<(PathBuf, bool)> {
     let mut hops = 0;
     let mut missing = false;
     let mut clean = true;
+    let ps = p.to_string_lossy();
+    let trailing_slash = ps.ends_with('/') || ps.ends_with("/.");
     while let Some(c) = todo.pop() {
         if c == "/" {
             cur = PathBuf::from("/");
@@ -172,9 +174,10 @@ fn real_location2(p: &Path) -> Option<(PathBuf, bool)> {
                 push_rev(&mut todo, &t);
             }
             Ok(md) => {
-                // a regular file in the middle of a path cannot be traversed either
-                if !md.is_dir() && !todo.is_empty() {
-                    missing = true;
+                // a regular file followed by further components (or a trailing slash) is ENOTDIR for the
+                // operating system: such a path names nothing and nothing can be created under it
+                if !md.is_dir() && (!todo.is_empty() || trailing_slash) {
+                    clean = false;
                 }
                 cur = next
             }
@@ -871,6 +874,7 @@ fn judge_live(run: &Run, c: &Case, live: &Live) -> CaseResult {
                     "title": "t", "format": "image/jpeg",
                     "claim_generator_info": [{ "name": "verif-harness", "version": "0.1" }],
                     "thumbnail": {"format": "image/jpeg", "identifier": id},
+                    "instance_id": "xmp:iid:verif", "no_embed": false, "timestamp_manifest_labels": [],
                     "base_path": live.dir.join("outside").to_string_lossy(),
                     "resources": {"base_path": live.dir.join("outside").to_string_lossy(), "resources": {}},
                     "ingredients": [{"title": "i", "format": "image/jpeg", "relationship": "componentOf",
@@ -918,7 +922,7 @@ fn judge_live(run: &Run, c: &Case, live: &Live) -> CaseResult {
         eprintln!("DEBUG {op}({}) aux={} -> {outcome}", short(&id), c.aux);
     }
     if oc != "ok" && (op.starts_with("builder") || op == "zip_import") {
-        let kind: String = outcome.chars().take(48).collect();
+        let kind: String = outcome.splitn(3, ':').take(2).collect::<Vec<_>>().join(":").chars().take(40).collect();
         run.count(&format!("errkind:{op}:{kind}"));
     }
 
@@ -985,7 +989,7 @@ fn judge_live(run: &Run, c: &Case, live: &Live) -> CaseResult {
             if !inside(&l, &root_real) {
                 let sig = match op {
                     "path_for_id" => {
-                        if std::fs::symlink_metadata(&l).is_ok() {
+                        if std::fs::canonicalize(&probe).is_ok() {
                             "C29:path_for_id-returns-existing-outside-path".to_string()
                         } else {
                             "C29:path_for_id-returns-location-outside-root".to_string()
@@ -1118,19 +1122,19 @@ fn main() {
     let threads = run.scale(8, 16);
     let mut rng = SplitMix64::new(run.seed ^ 0xC29);
 
-    let n_store = run.scale(1600, 80_000);
+    let n_store = run.scale(6000, 100_000);
     let cases: Vec<Case> = (0..n_store).map(|_| gen_case(&mut rng, "store")).collect();
     run.drive_enum_par("store_ops", cases, threads, |c| judge(&run, c));
 
-    let n_builder = run.scale(300, 14_000);
+    let n_builder = run.scale(900, 16_000);
     let cases: Vec<Case> = (0..n_builder).map(|_| gen_case(&mut rng, "builder")).collect();
     run.drive_enum_par("builder_ops", cases, threads, |c| judge(&run, c));
 
-    let n_zip = run.scale(100, 4_000);
+    let n_zip = run.scale(300, 5_000);
     let cases: Vec<Case> = (0..n_zip).map(|_| gen_case(&mut rng, "zip")).collect();
     run.drive_enum_par("zip_import", cases, threads, |c| judge(&run, c));
 
-    let n_tf = run.scale(120, 4_000);
+    let n_tf = run.scale(300, 5_000);
     let cases: Vec<Case> = (0..n_tf).map(|_| gen_to_folder(&mut rng)).collect();
     run.drive_enum_par("to_folder", cases, threads, |c| judge(&run, c));
 
